@@ -8,7 +8,7 @@
    This file contains only the property theorems; each is closed by [exact] of a lemma proved
    elsewhere and followed by Print Assumptions. *)
 From ZenoV Require Import Safe.GoOps Safe.GoOpsProofs Safe.Scanners Safe.ScannersProofs
-  Safe.Dispatch Safe.DispatchProofs.
+  Safe.Dispatch Safe.DispatchProofs Safe.DomainsCrawl Safe.DomainsCrawlProofs.
 Open Scope Z_scope.
 
 (* hasFileExtension: all three slices are in bounds for every byte string. *)
@@ -102,3 +102,37 @@ Theorem C10_dispatch_not_archived :
   forall c v p x, v_status v <> Archived -> postprocess_item c v p x = Ok (Out (v_status v) 0 0).
 Proof. exact dispatch_not_archived_lemma. Qed.
 Print Assumptions C10_dispatch_not_archived.
+
+(* The domains-crawl matcher, consulted by postprocessItem for every extracted outlink: for EVERY
+   operator configuration (any plain domains, stored URLs and regular expressions, in any number),
+   every link text, every parser and every regular-expression semantics, Match returns - u.Host is
+   never read from the nil URL of a failed parse - and a text that does not parse is no match. *)
+Theorem C10_domains_crawl_match_total :
+  forall (R : Type) (re_match : R -> bytes -> bool) (parse : bytes -> option bytes) (c : dc_conf R) (raw : bytes),
+    exists b, dc_match R re_match parse c raw = Ok b /\ (parse raw = None -> b = false).
+Proof. exact dc_match_total_lemma. Qed.
+Print Assumptions C10_domains_crawl_match_total.
+
+(* ... exactly because of the return in front of the loops: a condition on the configuration put in
+   front of that return is safe iff it holds for every configuration with a plain domain or a
+   host-only URL (lemma dc_match_regex_first_refuted: "only when no regular expression is
+   configured" panics on one domain + one expression + one text that does not parse). *)
+Theorem C10_domains_crawl_guard_needed :
+  forall (R : Type) (early : dc_conf R -> bool),
+    (forall re_match parse c raw, dc_match_g R re_match parse early c raw <> Panic)
+    <-> (forall c, reads_host c = true -> early c = true).
+Proof. exact dc_match_guard_needed_lemma. Qed.
+Print Assumptions C10_domains_crawl_guard_needed.
+
+(* The outlink loop of postprocessItem under domains crawl: for every configuration, hop limit and
+   list of link texts it ends without a panic, keeps at most the links it was given and only those,
+   and keeps all of them unchanged when domains crawl is off. *)
+Theorem C10_domains_crawl_outlinks_total :
+  forall (R : Type) (re_match : R -> bytes -> bool) (parse : bytes -> option bytes) (c : dc_conf R)
+         (item_hops max_hops : Z) (links : list (bytes * Z)),
+    exists kept, outlinks_loop R re_match parse c item_hops max_hops links = Ok kept
+                 /\ (List.length kept <= List.length links)%nat
+                 /\ incl (map fst kept) (map fst links)
+                 /\ (dc_enabled c = false -> kept = links).
+Proof. exact outlinks_loop_total_lemma. Qed.
+Print Assumptions C10_domains_crawl_outlinks_total.
